@@ -293,8 +293,12 @@ def r01_5(chk, ft):
                 continue
             try:
                 ex.run([st], stop_on_unsupported=True)
-            except Unsupported:
-                # arcsin / arctan2 results are handled below through their arguments
+            except Unsupported as e:
+                # arcsin / arctan2 results are handled below through their arguments; nothing else may be skipped
+                # (a skipped statement would leave the name bound to its own atom and pass vacuously)
+                inv = isinstance(st, ast.Assign) and isinstance(st.value, ast.Call) and unparse(st.value.func).split(".")[-1] in ("arctan2", "arcsin", "arccos")
+                if not inv:
+                    raise AnalysisError(f"{rev.ref}: `{unparse(st)[:80]}` is outside the term algebra ({e})")
                 ex.run([st])
         out_names = None
         for got, r in _returned_names(rev):
